@@ -37,7 +37,7 @@ MANIFEST = {
     "note": "trusted: O_EXCL atomicity of the real file system; the write-visibility model; one shared pid",
     "technique": "deterministic simulation: seeded interleaving search over lock/read/write steps of concurrent updaters; linearizability check of the recorded history against a sequential model",
 }
-BUDGET = {"quick": (1500, 60), "thorough": (150000, 1500)}
+BUDGET = {"quick": (1500, 60), "thorough": (300000, 1500)}
 # which lock file guards which tile must not depend on the interpreter (hash seed, pid): independently started
 # processes - separate `toasty` invocations, cluster jobs - must agree on it or they do not exclude each other
 XPROC_VIOLATION = ("lock-identity-differs-between-interpreters",
